@@ -1,0 +1,14 @@
+//go:build verif
+
+package retention
+
+// Hooks for the C14 verification harness (/verif): add-only, compiled only with -tags verif.
+
+// VerifHandle runs one pass of the retention check exactly as the service ticker does.
+func (s *Service) VerifHandle() { s.handle() }
+
+// VerifShardPending reports whether the deletion of shard id is still in the pending state
+// (DeleteShardOrIndex timed out and the background delete has not finished yet).
+func (s *Service) VerifShardPending(id uint64) bool {
+	return s.pendingShard.IsInPendingState(id) != nil
+}
